@@ -2,6 +2,7 @@ package main
 
 import (
 	"github.com/bilibili/smgo/sm2/internal"
+	"github.com/bilibili/smgo/sm2/internal/fiat"
 	"github.com/bilibili/smgo/sm3"
 	"github.com/bilibili/smgo/sm4"
 )
@@ -62,6 +63,12 @@ func init() {
 	register("tab.sm3", func(ctx *Ctx, c Cmd, ev Ev) {
 		tt, iv := sm3.VerifTT(), sm3.VerifIV()
 		ev["tt"], ev["iv"] = w32(tt[:]), w32(iv[:])
+	})
+	register("tab.fiat", func(ctx *Ctx, c Cmd, ev Ev) {
+		pc := fiat.VerifDivstepPrecomp()
+		ev["divstep_precomp"] = rawBE(&pc)
+		one := new(fiat.SM2Element).One()
+		ev["one_raw"] = rawBE(one.GetRaw())
 	})
 	register("tab.curve", func(ctx *Ctx, c Cmd, ev Ev) {
 		ev["b"] = B(internal.VerifB().Bytes())
